@@ -76,7 +76,7 @@ _STATES = re.compile(r"(\d+) states generated, (\d+) distinct states found")
 
 
 def tlc(module, cfg=None, *, name, workers=4, env=None, simulate=None, depth=None, tseed=None,
-        timeout=1800, heap="4g", deque=False, extra=None, allow_violation=False, specdir=None):
+        timeout=1800, heap="4g", deque=False, extra=None, allow_violation=False, specdir=None, coverage=False):
     """Run TLC on spec/<module>.tla.  Returns dict(out, generated, distinct, ok, violated, prints).
     `prints` maps a tag to the list of decoded payloads of lines printed as <<"TAG", "json">>."""
     md = workdir("tlc-" + name)
@@ -93,6 +93,8 @@ def tlc(module, cfg=None, *, name, workers=4, env=None, simulate=None, depth=Non
         cmd += ["-seed", str(tseed)]
     if extra:
         cmd += extra
+    if coverage:
+        cmd += ["-coverage", "1"]
     sd = specdir or SPEC
     cmd += ["-config", os.path.join(sd, (cfg or module) + ".cfg"), os.path.join(sd, module + ".tla")]
     e = dict(os.environ)
@@ -113,6 +115,20 @@ def tlc(module, cfg=None, *, name, workers=4, env=None, simulate=None, depth=Non
         (["<temporal>"] if "Temporal properties were violated" in out else [])
     res["ok"] = ("No error has been found" in out) or (simulate and "Error:" not in out and r.returncode in (0,))
     res["prints"] = parse_prints(out)
+    # per-action coverage (vacuity guard): action -> [distinct states it produced, states it generated], last report wins
+    res["actions"] = {}
+    for m in re.finditer(r"^<(\w+) line \d+, col \d+ to line \d+, col \d+ of module (\w+)(?: \((\d+) (\d+) \d+ (\d+)\))?>: (\d+):(\d+)", out, re.M):
+        name = m.group(1)
+        if m.group(3):
+            # an unnamed disjunct of Next: name it by the text of that disjunct
+            try:
+                line = open(os.path.join(sd, m.group(2) + ".tla")).read().splitlines()[int(m.group(3)) - 1]
+                frag = line[int(m.group(4)) - 1:int(m.group(5))]
+                ident = re.findall(r"[A-Z]\w*(?=\()", frag)
+                name = ident[-1] if ident else f"{name}@{m.group(3)}"
+            except (OSError, IndexError):
+                name = f"{name}@{m.group(3)}"
+        res["actions"][name] = [int(m.group(6)), int(m.group(7))]
     # behaviours printed by several workers arrive in scheduling order: canonical order, so that
     # seeded sampling from them is reproducible
     for tag in ("REPLAY", "GRAPH", "PROG"):
